@@ -14,7 +14,7 @@ def build_wasm(repo, spec_dir, canary=False):
     b.emit('use vstd::prelude::*;\nverus! {')
     B.emit_types_and_spec(b, lemmas=False)
     bu = b.src('builder.rs')
-    for c in ['MINIMUM_REPETITIONS_MESSAGE', 'MINIMUM_SUBSTRING_LENGTH_MESSAGE']:
+    for c in ['MINIMUM_REPETITIONS_MESSAGE', 'MINIMUM_SUBSTRING_LENGTH_MESSAGE', 'MISSING_TEST_CASES_MESSAGE']:
         st, _, _ = X.item(bu + '', r'^pub\(crate\) const ' + c) if False else (None, None, None)
         m = re.search(r'pub\(crate\) const ' + c + r': &str =\s*("(?:[^"\\]|\\.)*");', bu)
         if not m: raise X.LostAnchor(c)
@@ -29,8 +29,23 @@ use super::*;
 use super::RegExpBuilder as Builder;''')
     b.type_item('wasm.rs', r'^pub struct RegExpBuilder \{')
     b.emit('pub assume_specification [<RegExpBuilder as Clone>::clone] (e: &RegExpBuilder) -> (r: RegExpBuilder) ensures r == *e;')
+    fields = [f for f, _ in B.config_fields(b)]
+    b.emit('pub open spec fn default_config() -> RegExpConfig { RegExpConfig { %s } }' % ', '.join('%s: %s' % (f, {'minimum_repetitions': '1', 'minimum_substring_length': '1'}.get(f, 'false')) for f in fields))
+    b.emit('''// the JavaScript strings among the elements of the array, in order (JsValue::as_string is Some exactly for JS strings): opaque
+pub uninterp spec fn js_strings(a: Box<[JsValue]>) -> Seq<String>;
+#[verifier::external_body] pub fn vx_js_strings(a: &Box<[JsValue]>) -> (r: Vec<String>) ensures r@ == js_strings(*a) { unimplemented!() }
+impl Builder {
+    #[verifier::external_body]
+    pub fn from(test_cases: &Vec<String>) -> (r: Self)
+        requires test_cases@.len() > 0        // the library's documented panic on an empty list: the binding must never reach it (C17: "throws instead of trapping")
+        ensures r.config == default_config(), r.test_cases@ == test_cases@ { unimplemented!() }
+}''')
     b.emit('impl RegExpBuilder {')
     W = r'^impl RegExpBuilder \{'
+    b.verified_fn('wasm.rs', 'from', within=W, props=['C07'], fname='wasm::from',
+                  extra_rules=[('R19', r'testCases\s*\.iter\(\)\s*\.filter_map\(\|it\| it\.as_string\(\)\)\s*\.collect_vec\(\)', 'vx_js_strings(&testCases)', 'iter().filter_map(|it| it.as_string()).collect_vec(): the JS strings of the array, in order (uninterpreted)')],
+                  clauses=[Clause('wasm.from.no_strings_throws_the_library_message', 'js_strings(testCases).len() == 0 ==> r is Err && r->Err_0 == js_of(MISSING_TEST_CASES_MESSAGE@)', ['C17', 'C07']),
+                           Clause('wasm.from.builder_over_the_strings_with_default_settings', 'js_strings(testCases).len() > 0 ==> r is Ok && r->Ok_0.builder.test_cases@ == js_strings(testCases) && r->Ok_0.builder.config == default_config()', ['C17'])])
     for m, sp in WASM.items():
         b.verified_fn('wasm.rs', m, within=W, props=['C07'], fname='wasm::' + m, clauses=[
             Clause('wasm.%s.effect' % m, 'final(self).builder.config == %s(old(self).builder.config)' % sp, ['C17']),
@@ -45,7 +60,7 @@ use super::RegExpBuilder as Builder;''')
         Clause('wasm.build.delegates', 'r@ == build_spec(old(self).builder)', ['C17'])])
     b.emit('}\n} // mod wasm')
     b.emit('} // verus!\nimpl Clone for wasm::RegExpBuilder { fn clone(&self) -> Self { unimplemented!() } }\nfn main() {}')
-    b.trusted += ['#[wasm_bindgen] glue and JsValue are opaque; derived Clone on the wrapper is structural', 'wasm::from (filter_map over JsValue array) is not under contract']
+    b.trusted += ['#[wasm_bindgen] glue and JsValue are opaque; derived Clone on the wrapper is structural', 'wasm::from: `iter().filter_map(|it| it.as_string()).collect_vec()` is the list of the JS strings of the array (uninterpreted `js_strings`; non-string elements are dropped silently by the code as it is); the library constructor RegExpBuilder::from is assumed (default settings, the given test cases; panics on an empty list)']
     return b
 
 CLI_FLAGS = {  # config field -> expression over cli, written from the help text of main.rs
